@@ -28,12 +28,12 @@ pub struct Menu {
 pub fn menu(l: L) -> Menu {
     if l == L::Ru {
         Menu {
-            recs: vec![rec(1, "альфа бета", 5), rec(2, "бета", 9), rec(3, "ал", 7), rec(4, "бета", 9), rec(5, "", 1)],
+            recs: vec![rec(1, "альфа бета", 5), rec(2, "бета", 9), rec(3, "ал", 7), rec(4, "бета", 9), rec(5, "", 1), rec(6, "бета", 5)],
             queries: ["", " ", "ал", "бета", "бта", "альфабета"].iter().map(|s| s.to_string()).collect(),
         }
     } else {
         Menu {
-            recs: vec![rec(1, "alpha beta", 5), rec(2, "beta", 9), rec(3, "al", 7), rec(4, "beta", 9), rec(5, "", 1)],
+            recs: vec![rec(1, "alpha beta", 5), rec(2, "beta", 9), rec(3, "al", 7), rec(4, "beta", 9), rec(5, "", 1), rec(6, "beta", 5)],
             queries: ["", " ", "al", "beta", "bta", "alphabeta"].iter().map(|s| s.to_string()).collect(),
         }
     }
@@ -282,7 +282,17 @@ impl Sys for C10Sys {
         }
         cx.extra("api_calls", calls);
         cx.tr(1);
-        Some(canon(&st))
+        // key = real state + model state: two histories that leave the same real store but different
+        // expectations (a lost update) have different futures with respect to the oracle
+        let mut k = canon(&st);
+        k.push(0xf7);
+        for r in &model.recs {
+            k.extend_from_slice(&(r.0 as u32).to_le_bytes());
+        }
+        k.push(0xf6);
+        k.extend_from_slice(&(model.limit as u64).to_le_bytes());
+        k.push(model.markers as u8);
+        Some(k)
     }
 }
 
@@ -319,7 +329,7 @@ impl Prop for C10 {
         vec![Dom::new("bfs-configs", self.configs.len() as u64, 1)
             .budget(self.tier.pick(170, 3000))
             .note(format!(
-                "one merged BFS per (language, initial store) to depth {}, followed by the same search without state matching to depth {} (every key it reaches must be known to the merged search); 19 operations enabled in every state",
+                "one merged BFS per (language, initial store) to depth {}, followed by the same search without state matching to depth {} (every key it reaches must be known to the merged search); 20 operations enabled in every state (19 when C01 drives it without clear)",
                 self.depth(true),
                 self.depth(false)
             ))]
@@ -339,7 +349,7 @@ impl Prop for C10 {
         }
     }
     fn rule(&self) -> String {
-        "explicit-state BFS: a state is an operation history over {search(q)×6, add(r)×5, clear, limit×4, markers×3} replayed on a fresh real Store; states merged by the canonical key (all Store fields incl. memo and index digest); every transition ending in a search is compared with a freshly built store. Non-trivial = a validated search transition that returned at least one hit. distinct = distinct histories (one per explored transition).".into()
+        "explicit-state BFS: a state is an operation history over {search(q)×6, add(r)×6, clear, limit×4, markers×3} replayed on a fresh real Store; states merged by the canonical key (all Store fields incl. memo and index digest); every transition ending in a search is compared with a freshly built store. Non-trivial = a validated search transition that returned at least one hit. distinct = distinct histories (one per explored transition).".into()
     }
     fn assumptions(&self) -> Vec<String> {
         vec![
